@@ -256,11 +256,10 @@ func genDenseCopy(g *vlib.G) {
 				var v verdict
 				for r := 1; r <= n; r++ {
 					for c := 1; c <= n; c++ {
-						for _, d := range [][2]int{{0, 0}, {1, 0}, {0, 2}, {-1, 0}, {0, -1}, {-1, 1}} {
-							mr, mc := r+d[0], c+d[1]
-							if mr < 1 || mc < 1 {
-								continue
-							}
+						// every receiver shape against every source shape: all nine relations
+						// (fewer / equal / more rows) × (fewer / equal / more columns), not a sample of them.
+						for rs := 0; rs < (n+1)*(n+1); rs++ {
+							mr, mc := 1+rs/(n+1), 1+rs%(n+1)
 							a := ka.make(r, c, 1, famMixed)
 							if a == nil {
 								continue
